@@ -623,6 +623,7 @@ def r3_grouping_key(ctx, rid):
     n = 0
     for ch in chains:
         f = ch.f
+        root = U.Scope(f)
         # the chain loop: an enclosing `for ... in [enumerate(]G.items()[)]`
         outer = None
         a = parent(ch.loop)
@@ -636,7 +637,6 @@ def r3_grouping_key(ctx, rid):
             continue        # one chain per call (matrix form): nothing is shared
         n += 1
         oloop, G = outer
-        # stores G[key] = ...
         # the keys under which slots are filed: G[key] (store, or .append on a defaultdict), G.setdefault(key, ...), G.get(key, ...)
         key_exprs = []
         for x in walk_shallow(f.node):
@@ -649,18 +649,25 @@ def r3_grouping_key(ctx, rid):
                 key_exprs.append(x.args[0])
         if not key_exprs:
             raise AnalysisError(f"{rid}: {f.qual}: no key of the grouping dict `{G}` found (neither `{G}[key]` nor `{G}.setdefault(key, ..)`)")
-        # lists of per-slot orders and rates: the rate list is the one the registered rate is read from
+        # the rate registered for the chain's stage coefficient, traced back to the per-slot rate expressions
         vdefs = U.var_defs(ctx, f)
-        a_t, cd0 = _rate_constant(ctx, rid, ch, vdefs)
-        cds = [cd0]
-        leaves = _rate_leaves(ctx, f, cds[0].fields["value"], cds[0].stmt)
-        rate_lists = {l for _, l in leaves if l}
-        if len(rate_lists) != 1:
-            raise AnalysisError(f"{rid}: {f.qual}: the registered rate is not read from exactly one per-slot list (found {sorted(rate_lists)})")
-        rate_list = rate_lists.pop()
-        # order list: what the chain's stage count is drawn from is the key; the per-slot order list is the other list zipped with the rates
+        a_t, cd = _rate_constant(ctx, rid, ch, vdefs)
+        rate_tr, rate_leaves = _rate_leaves(ctx, f, cd.fields["value"])
+        rate_nodes = {id(l.node) for l in rate_leaves}
+        if not rate_nodes:
+            raise AnalysisError(f"{rid}: {f.qual}: the registered rate `{a_t}` traces back to constants only")
+        sites = _order_sites(ctx, f)
+
+        def first_loop(tr):
+            """the loop whose variable the traced value is (the iteration the key component belongs to)"""
+            for b_ in tr.binders:
+                if isinstance(b_, ast.For):
+                    return b_
+            return None
+
+        # ---- (a) the key holds the slot's own order and the slot's own rate, drawn from one iteration
         seen_keys = set()
-        key_components = []
+        key_stmts = []
         for kx in key_exprs:
             kdef = kx
             if isinstance(kx, ast.Name):
@@ -672,133 +679,117 @@ def r3_grouping_key(ctx, rid):
             if id(kst) in seen_keys:
                 continue
             seen_keys.add(id(kst))
+            key_stmts.append(kst)
             comps = list(kdef.elts) if isinstance(kdef, ast.Tuple) else [kdef]
-            srcs = []
-            loops = set()
-            def trace(e, cs, depth=0):
-                """lists whose elements reach `e` through loop variables, looking through single-definition locals (`r = round(rate, 12)`)"""
-                for nm in ast.walk(e):
-                    if isinstance(nm, ast.Name) and isinstance(nm.ctx, ast.Load):
-                        s = U.element_source(ctx, f, nm)
-                        if isinstance(s, ast.Name):
-                            cs.add(s.id)
-                            d = ctx.rd(f).defs_reaching(nm)
-                            if d:
-                                loops.add(id(d[0]))
-                        elif s is None and depth < 4:
-                            v = U.single_value(ctx, f, nm)
-                            if v is not None:
-                                trace(v, cs, depth + 1)
-
+            desc, rate_loops, order_loops = [], [], []
             for c in comps:
-                cs = set()
-                trace(c, cs)
-                srcs.append(sorted(cs))
-            flat = {s for cs in srcs for s in cs}
-            # the per-slot order list: a list whose elements are order values, zipped with the rate list
-            order_lists = _order_lists(ctx, f, rate_list)
-            facts = {"key": ast.unparse(kdef), "component_sources": srcs, "rate_list": rate_list, "order_lists": sorted(order_lists)}
-            key_components.append((kst, srcs, order_lists))
-            has_rate = rate_list in flat
-            has_order = bool(order_lists & flat)
+                tr = U.trace(ctx, root, c)
+                if tr.opaque():
+                    l = tr.opaque()[0]
+                    raise AnalysisError(f"{rid}: {f.qual}: key component `{ast.unparse(c)}` cannot be traced (stops at `{ast.unparse(l.node)}` in "
+                                        f"{l.scope.f.qualname}: unrecognised form)")
+                vals = tr.values()
+                ids = {id(l.node) for l in vals}
+                if vals and ids <= rate_nodes:
+                    desc.append("rate")
+                    rate_loops.append(first_loop(tr))
+                elif vals and all(_is_order_leaf(l, sites) for l in vals):
+                    desc.append("order")
+                    order_loops.append(first_loop(tr))
+                elif not vals:
+                    desc.append("constant")
+                else:
+                    desc.append("other: " + ", ".join(sorted({ast.unparse(l.node) for l in vals}))[:80])
+            facts = {"key": ast.unparse(kdef), "components": desc, "rate_through": sorted(set(rate_tr.containers))}
+            has_rate, has_order = bool(rate_loops), bool(order_loops)
             label = f"grouping key {norm(kst, 70)}"
-            if has_rate and has_order and len(loops) == 1:
-                ctx.ok(rid, f, kst, f"slots share a chain only if their own order (from `{sorted(order_lists & flat)[0]}`) and their own rate (from `{rate_list}`) "
-                                    f"agree (both drawn from one zip)", facts, label=label)
+            same_iter = has_rate and has_order and all(l_ is not None and l_ is rate_loops[0] for l_ in rate_loops + order_loops)
+            if has_rate and has_order and same_iter:
+                ctx.ok(rid, f, kst, "slots share a chain only if their own order and their own rate agree (both drawn from one iteration over the slots)",
+                       facts, label=label)
             else:
                 missing = [w for w, h in (("rate", has_rate), ("order", has_order)) if not h]
                 why = (f"the key that groups delay slots into one shared chain does not contain the slot's {' and '.join(missing)}: edges that differ in it would be "
                        f"merged into one chain and all get the kernel of the first") if missing else \
                     "order and rate in the key are not drawn from the same iteration"
                 ctx.violation(rid, f, kst, why, facts, label=label)
-        # the number of stages of a chain is the order component of its key
+        # ---- (b) the number of stages of a chain is the order component of its key
         stage_n = _stage_count_name(ch)
-        pos = _key_position(oloop, stage_n.id) if stage_n is not None else None
-        sdefs = ctx.rd(f).defs_reaching(stage_n) if stage_n is not None else []
-        if pos is None or len(sdefs) != 1 or sdefs[0] is not oloop:
-            raise AnalysisError(f"{rid}: {f.qual}: the stage count `{stage_n.id if stage_n is not None else '?'}` is not a component of the key "
-                                f"destructured by `{norm(oloop)}` (unrecognised form)")
-        for kst, comp_srcs, order_lists in key_components:
-            label = f"stage count is the key's order component ({norm(kst, 50)})"
-            if pos < len(comp_srcs) and set(comp_srcs[pos]) & order_lists:
-                ctx.ok(rid, f, oloop, f"the number of stages `{stage_n.id}` is component {pos} of the key, which holds the slot's order", label=label)
-            else:
-                ctx.violation(rid, f, oloop, f"the number of stages `{stage_n.id}` is read from component {pos} of the grouping key, which does not hold the slot's "
-                                             f"order (sources {comp_srcs[pos] if pos < len(comp_srcs) else '-'}): chains would get a wrong number of stages",
-                              label=label)
-        # the chain's rate is the rate of a slot of this group, its order the key's order component
-        rv = cds[0].fields["value"]
-        if isinstance(rv, ast.Name):
-            val = U.single_value(ctx, f, rv)
-            if isinstance(val, ast.Subscript) and isinstance(val.value, ast.Name) and val.value.id == rate_list:
-                roots = set()
-                # names derived from the group's own member list (the dict *value* bound by the chain loop), not from its position
-                it_, en_ = U.unwrap_enumerate(oloop.iter)
-                tgt_ = oloop.target.elts[1] if en_ and isinstance(oloop.target, ast.Tuple) and len(oloop.target.elts) == 2 else oloop.target
-                gname = tgt_.elts[1].id if isinstance(tgt_, ast.Tuple) and len(tgt_.elts) == 2 and isinstance(tgt_.elts[1], ast.Name) else None
-                if gname is None:
-                    raise AnalysisError(f"{rid}: {f.qual}: group variable of `{norm(oloop)}` not recognised")
-                derived = {gname}
-                changed_ = True
-                while changed_:
-                    changed_ = False
-                    for st_ in ast.walk(oloop):
-                        if isinstance(st_, ast.Assign) and any(isinstance(x, ast.Name) and x.id in derived for x in ast.walk(st_.value)):
-                            for t_ in st_.targets:
-                                for x in ast.walk(t_):
-                                    if isinstance(x, ast.Name) and x.id not in derived:
-                                        derived.add(x.id)
-                                        changed_ = True
-                if any(isinstance(nm, ast.Name) and nm.id in derived for nm in ast.walk(val.slice)):
-                    roots.add("<group>")
-                if "<group>" in roots:
-                    ctx.ok(rid, f, _stmt(val), "the chain's rate is the rate of a slot that belongs to this group", {"value": ast.unparse(val)},
-                           label="chain rate taken from own group")
+        if stage_n is None:
+            raise AnalysisError(f"{rid}: {f.qual}: the stage loop `{norm(ch.loop)}` is not a range over a name")
+        stage_tr = U.trace(ctx, root, stage_n)
+        via_key = [sel for sc_, w, sel in stage_tr.waypoints if w.id == G and sel and sel[0][0] == "dkey"]
+        sdefs = ctx.rd(f).defs_reaching(stage_n)
+        if not via_key or len(sdefs) != 1 or sdefs[0] is not oloop:
+            raise AnalysisError(f"{rid}: {f.qual}: the stage count `{stage_n.id}` is not a component of the key destructured by `{norm(oloop)}` "
+                                f"(unrecognised form)")
+        if stage_tr.opaque():
+            l = stage_tr.opaque()[0]
+            raise AnalysisError(f"{rid}: {f.qual}: the stage count `{stage_n.id}` cannot be traced (stops at `{ast.unparse(l.node)}`)")
+        svals = stage_tr.values()
+        pos = [x[1] for x in via_key[0][1:2] if x[0] == "idx"]
+        label = f"stage count is the key's order component ({norm(key_stmts[0], 50)})"
+        sfacts = {"stage_count": stage_n.id, "key_component": pos[0] if pos else None,
+                  "values": sorted({ast.unparse(l.node) for l in svals})}
+        if svals and all(_is_order_leaf(l, sites) for l in svals):
+            ctx.ok(rid, f, oloop, f"the number of stages `{stage_n.id}` is component {pos[0] if pos else '?'} of the key, which holds the slot's order", sfacts,
+                   label=label)
+        else:
+            ctx.violation(rid, f, oloop, f"the number of stages `{stage_n.id}` is read from component {pos[0] if pos else '?'} of the grouping key, which does not "
+                                         f"hold the slot's order (it holds {sfacts['values']}): chains would get a wrong number of stages", sfacts,
+                          label=label)
+        # ---- (c) the chain's rate is the rate of a slot of this group
+        it_, en_ = U.unwrap_enumerate(oloop.iter)
+        tgt_ = oloop.target.elts[1] if en_ and isinstance(oloop.target, ast.Tuple) and len(oloop.target.elts) == 2 else oloop.target
+        gname = tgt_.elts[1].id if isinstance(tgt_, ast.Tuple) and len(tgt_.elts) == 2 and isinstance(tgt_.elts[1], ast.Name) else None
+        if gname is None:
+            raise AnalysisError(f"{rid}: {f.qual}: group variable of `{norm(oloop)}` not recognised")
+        # names derived from the group's own record (the dict *value* bound by the chain loop), not from its position
+        derived = {gname}
+        changed_ = True
+        while changed_:
+            changed_ = False
+            for st_ in ast.walk(oloop):
+                if isinstance(st_, ast.Assign) and any(isinstance(x, ast.Name) and x.id in derived for x in ast.walk(st_.value)):
+                    for t_ in st_.targets:
+                        for x in ast.walk(t_):
+                            if isinstance(x, ast.Name) and x.id not in derived:
+                                derived.add(x.id)
+                                changed_ = True
+        val = cd.fields["value"]
+        hops = 0
+        while isinstance(val, ast.Name) and hops < 4:
+            v2 = U.single_value(ctx, f, val)
+            if v2 is None:
+                break
+            val, hops = v2, hops + 1
+        label = "chain rate taken from own group"
+        if isinstance(val, ast.Subscript) and isinstance(val.value, ast.Name):
+            base, idx = val.value, val.slice
+            if base.id in derived:
+                # stored in the group's own record (e.g. at the moment the group is created): it must come from the iteration that
+                # files the slot under the key
+                loops_ = [b_ for b_ in rate_tr.binders if isinstance(b_, ast.For) and b_ is not oloop]
+                key_loops = {id(U.loop_of(k_)) for k_ in key_stmts}
+                if loops_ and id(loops_[0]) in key_loops:
+                    ctx.ok(rid, f, _stmt(val), "the chain's rate is the rate stored with the group by the slot that created it", {"value": ast.unparse(val)},
+                           label=label)
+                elif rate_tr.indexed:
+                    raise AnalysisError(f"{rid}: {f.qual}: cannot tell which slot's rate `{ast.unparse(val)}` holds (read through "
+                                        f"`{ast.unparse(rate_tr.indexed[0])}`: unrecognised form)")
                 else:
-                    ctx.violation(rid, f, _stmt(val), f"the chain's rate `{ast.unparse(val)}` is not indexed by a slot of the chain's own group",
-                                  label="chain rate taken from own group")
+                    ctx.violation(rid, f, _stmt(val), f"the rate stored with the group (`{ast.unparse(val)}`) is not the rate of the slot that is filed under "
+                                                      f"the group's key: it comes from {sorted({ast.unparse(l.node) for l in rate_leaves})} without passing "
+                                                      f"through the variable of the loop that builds the key", {"value": ast.unparse(val)}, label=label)
+            elif any(isinstance(nm, ast.Name) and nm.id in derived for nm in ast.walk(idx)):
+                ctx.ok(rid, f, _stmt(val), "the chain's rate is the rate of a slot that belongs to this group", {"value": ast.unparse(val)}, label=label)
+            else:
+                ctx.violation(rid, f, _stmt(val), f"the chain's rate `{ast.unparse(val)}` is not indexed by a slot of the chain's own group", label=label)
+        else:
+            raise AnalysisError(f"{rid}: {f.qual}: the registered rate `{ast.unparse(val)}` is neither read from a per-slot list nor from the group's "
+                                f"own record (unrecognised form)")
     if n == 0:
         raise AnalysisError(f"{rid}: no sibling groups delay slots by a key (the scalar form's grouping vanished)")
-
-
-def _key_position(loop: ast.For, name: str) -> Optional[int]:
-    """Position of `name` inside the destructured key of `for [i,] ((k0, k1, ...), val) in [enumerate(]G.items()[)]`."""
-    it, en = U.unwrap_enumerate(loop.iter)
-    tgt = loop.target
-    if en:
-        if not (isinstance(tgt, ast.Tuple) and len(tgt.elts) == 2):
-            return None
-        tgt = tgt.elts[1]
-    if not (isinstance(tgt, ast.Tuple) and len(tgt.elts) == 2 and isinstance(tgt.elts[0], ast.Tuple)):
-        return None
-    for i, e in enumerate(tgt.elts[0].elts):
-        if isinstance(e, ast.Name) and e.id == name:
-            return i
-    return None
-
-
-def _order_lists(ctx, f, rate_list: str) -> set:
-    """Names of the lists that are zipped together with the rate list and whose elements are order values."""
-    names = _order_names(ctx, f)
-    out = set()
-    for n in walk_shallow(f.node):
-        if isinstance(n, ast.Call) and call_name(n) == "zip":
-            zn = [a.id for a in n.args if isinstance(a, ast.Name)]
-            if rate_list not in zn:
-                continue
-            for a in zn:
-                if a == rate_list:
-                    continue
-                vals = []
-                for c in U.mutations_of(f, a):
-                    vals += list(c.args)
-                for st in walk_shallow(f.node):
-                    if isinstance(st, ast.Assign) and any(isinstance(t, ast.Name) and t.id == a for t in st.targets) \
-                            and isinstance(st.value, ast.ListComp):
-                        vals.append(st.value.elt)
-                if vals and all(_is_order_value(ctx, f, v, names) for v in vals):
-                    out.add(a)
-    return out
 
 
 # ---------------------------------------------------------------------------------------------
@@ -1147,7 +1138,7 @@ def r_perm_identity(ctx, rid):
 
 
 RULES = [
-    ("C11-R1", r1_order_and_rate, 5),
+    ("C11-R1", r1_order_and_rate, 4),             # 2 siblings x (order site, rate expression); 5 today (two spellings of the scalar rate)
     ("C11-R2", r2_stage_equations, 8),
     ("C11-R3", r3_grouping_key, 3),
     ("C11-R4", r4_delays_stay_continuous, 4),     # delay flag, spread flag, >= 1 forwarding, continuous arm (6 today)
